@@ -4,7 +4,8 @@ From ChiaV.Clvm Require Import Sexp Ints.
 From ChiaV.Clvm Require Import TreeHash.
 From ChiaV.Gen Require Import Opcodes Builder.
 From ChiaV.Cond Require Import Model.
-From ChiaV.Bundle Require Import SolutionGen Interned SpendBundle BlockPath SexpProofs SolutionGenProofs AgreeProofs.
+From ChiaV.Bundle Require Import SolutionGen Interned SpendBundle BlockPath SexpProofs SolutionGenProofs AgreeProofs OrderProofs.
+From Coq Require Import Permutation.
 Open Scope N_scope.
 
 (* (1) the plain serializer is inverted by the plain deserializer, for every tree it can serialize
@@ -66,3 +67,55 @@ Theorem C08_interned_base_cost : forall cpb fl spends g program,
   bf_interned fl = true -> build_generator spends = Some g -> ser g = Some program ->
   calculate_base_cost cpb fl spends = Ok (interned_vbytes g * cpb) /\ parse_node program = Ok g.
 Proof. exact interned_base_cost. Qed.
+
+(* (2),(3) for the SAME bundle (no reversal): mempool path of b vs block path of ser (build_generator b).
+   Additional hypotheses, all about oracles and stated explicitly: [run] has budget-independent results (a program has a
+   cost and a result and fails with CostExceeded exactly below that cost, or it fails whatever the budget);
+   aggregate_verify ([sig_ok]) does not depend on the order of the (key, message) pairs.
+   PROVED: same accept/reject decision; on acceptance [agree_summary]: cost_block = cost_mempool + overhead, equal
+   reserve fee, removal and addition amounts, absolute height/seconds locks (after and before), and the (key, message)
+   pairs as a Permutation (the block path lists the spends in reverse).
+   `_partial`: NOT yet stated for the same bundle: the per-spend summaries as a Permutation (up to the two mempool-only
+   flag bits), agg_sig_unsafe as a Permutation, condition_cost and execution_cost (+20).  For the reversed bundle all of
+   these are in C08_agree_rev_partial; what is missing is only the transport of the per-spend records across the
+   reversal of the mempool path (Cond/Summary.accepted_summary + Cond/Flags.accepted_flags applied to the interleaved
+   loop of OrderProofs.v), not any further fact about the code.  Still excluded: INTERNED_GENERATOR, > MAX_SPENDS_PER_BLOCK. *)
+Theorem C08_agree_partial : forall valid_key (H : bytes -> bytes) K run sig_ok cpb fl gen_args,
+  (forall x args budget,
+     run (Pair (Atom [x01]) x) args budget = if budget <? 20 then Err CostExceeded else Ok (20, x)) ->
+  (forall p s, (exists c r, forall b, run p s b = (if b <? c then Err CostExceeded else Ok (c, r))) \/
+               (forall b, exists e, run p s b = Err e)) ->
+  (forall l l', Permutation l l' -> sig_ok l = sig_ok l') ->
+  forall spends g program max_cost,
+  Forall (good_spend H) spends ->
+  bf_interned fl = false ->
+  N.of_nat (length spends) <= MAX_SPENDS_PER_BLOCK ->
+  build_generator spends = Some g -> ser g = Some program ->
+  match mempool_path valid_key H K run sig_ok cpb fl spends max_cost,
+        run_block_generator2 valid_key H K run sig_ok cpb fl gen_args program (nlen program) (max_cost + overhead cpb) with
+  | Ok m, Ok b => agree_summary (overhead cpb) b m
+  | Err _, Err _ => True
+  | _, _ => False
+  end.
+Proof. exact agree_same. Qed.
+
+(* the mempool path alone: the order of the coin spends changes neither the verdict nor the aggregates *)
+Theorem C08_mempool_order : forall vk (H : bytes -> bytes) K run cpb fl,
+  (forall p s, (exists c r, forall b, run p s b = (if b <? c then Err CostExceeded else Ok (c, r))) \/
+               (forall b, exists e, run p s b = Err e)) ->
+  bf_interned fl = false ->
+  forall L max_cost,
+  match run_spendbundle vk H K run cpb fl (rev L) max_cost, run_spendbundle vk H K run cpb fl L max_cost with
+  | Ok r', Ok r => agg_eq r' r
+  | Err _, Err _ => True
+  | _, _ => False
+  end.
+Proof. exact mempool_order. Qed.
+
+(* the oracle hypotheses are jointly satisfiable (an evaluator that knows only `quote`; a verifier that accepts) *)
+Theorem C08_oracle_hyps_nonvacuous :
+  (forall x args budget, quote_run (Pair (Atom [x01]) x) args budget = if budget <? 20 then Err CostExceeded else Ok (20, x)) /\
+  (forall p s, (exists c r, forall b, quote_run p s b = (if b <? c then Err CostExceeded else Ok (c, r))) \/
+               (forall b, exists e, quote_run p s b = Err e)) /\
+  (forall l l' : list (bytes * bytes), Permutation l l' -> (fun _ => true) l = (fun _ => true) l').
+Proof. exact oracle_hyps_inhabited. Qed.
